@@ -135,8 +135,14 @@ class Verifier:
                     pr[path] = v.t
             elif isinstance(v, ListObj):
                 pr[path + '.n'] = v.n
+                pr[path + '.cnt'] = v.cnt
             elif isinstance(v, DictObj):
                 pr[path + '.nk'] = v.nk
+                pr[path + '.keys'] = v.keys
+                if v.vcnt is not None:
+                    pr[path + '.vcnt'] = v.vcnt
+                if v.vals is not None:
+                    pr[path + '.vals'] = v.vals
         pr['now'] = eng.st.now
         return pr
 
